@@ -420,7 +420,10 @@ MANIFEST = {
                   '(C05_encrypt_save_load_decrypt: encrypt, save in either cross-reference format, load -- which decrypts itself when '
                   'the empty password opens the file and returns the document still encrypted otherwise --, decrypt with the user or '
                   'the owner password returns the plain document in the sense of C01 same_doc; side condition: the encrypted document '
-                  'is in the domain of C01_full_enc) and evaluated on the implementation. No axioms.',
+                  'is in the domain of C01_full_enc; C05_encrypt_save_load_decrypt_full derives that domain from the plain document and keeps one '
+                  'hypothesis on the encrypted one: the written file is below 4 GiB -- not derived from the plain file: a ciphertext string '
+                  'costs up to 2 n + 66 bytes in the file, C05_string_written_length_partial, notes/C05.md Round 7) and evaluated on the '
+                  'implementation. No axioms.',
     'technique': 'Coq proofs over an executable model (transporting the C06 refinement to ISO 32000) + two-way differential '
                  'correspondence + direct property evaluation',
     'design_ref': 'DESIGN.md 6 C05',
